@@ -16,11 +16,11 @@ from harness import oracles
 MODEL = ['Gen/GenConsts.v', 'Model/Base.v', 'Model/Tables.v', 'Model/Txn.v', 'Model/Handlers.v', 'Proofs/Defs.v']
 DEPS = {
     'C01': MODEL + ['Proofs/C01.v'],
-    'C04': MODEL + ['Proofs/C04.v'],
-    'C08': MODEL + ['Proofs/C08.v'],
+    'C04': MODEL + ['Proofs/C04.v', 'Model/Conc.v', 'Model/ConcTree.v', 'Model/ConcAll.v'],
+    'C08': MODEL + ['Proofs/C08.v', 'Model/Conc.v', 'Model/ConcTree.v', 'Model/ConcAll.v', 'Proofs/C08c.v'],
     'C09': MODEL + ['Proofs/C09.v', 'Model/Conc.v', 'Model/ConcTree.v', 'Proofs/C09c.v'],
-    'C10': MODEL + ['Proofs/C10.v', 'Model/Conc.v', 'Proofs/ConcDefs.v', 'Proofs/C05.v', 'Proofs/C06.v'],
-    'C12': MODEL + ['Proofs/C08.v', 'Proofs/C12.v', 'Proofs/Reach.v'],
+    'C10': MODEL + ['Proofs/C10.v', 'Model/Conc.v', 'Proofs/ConcDefs.v', 'Proofs/C05.v', 'Proofs/C06.v', 'Model/ConcTree.v', 'Model/ConcAll.v'],
+    'C12': MODEL + ['Proofs/C08.v', 'Proofs/C12.v', 'Proofs/Reach.v', 'Model/Conc.v', 'Model/ConcTree.v', 'Model/ConcAll.v'],
 }
 PROFILE = {'C01': 'alloc', 'C04': 'default', 'C08': 'integrity', 'C09': 'tree', 'C10': 'default', 'C12': 'consumers'}
 BUDGET = {'quick': (36, 30), 'thorough': (1200, 40)}
@@ -276,8 +276,8 @@ def run(pid, tier, out):
         'oracle_hits': len(hits),
         'interleaving_stream': dict(cx.get('stats') or {}, violations=len(cx['violations']),
                                     note='two requests on one entity, gap schedules + DFS enumeration on the real service; '
-                                         'oracle only, except C09: every executed schedule is also replayed in Model/ConcTree.v '
-                                         '(model_compared_schedules / model_disagreements)') if pid in CONC_EXTRA else None,
+                                         'every executed schedule is also replayed in the Coq model (C09: Model/ConcTree.v, the '
+                                         'others: Model/ConcAll.v; model_compared_schedules / model_disagreements)') if pid in CONC_EXTRA else None,
         'status_histogram': {str(k): v for k, v in sorted(stats['status'].items())},
         'op_histogram': dict(stats['ops']),
         'error_fraction': round(sum(v for k, v in stats['status'].items() if k >= 400) / max(1, stats['evaluations']), 3),
